@@ -1,5 +1,5 @@
 """C01 -- Volume-to-scan conversion conserves every radial (Scan.tla over Sweep.tla)."""
-import vlib
+import vlib, sysval
 
 
 def run(tier):
@@ -19,6 +19,8 @@ def run(tier):
     c.replay("scan", vec, timeout=3000)
     tr, n = c.record("scan", timeout=3000)
     c.validate("Trace_Scan", tr, batch=False, xmx="16g", timeout=3000)
+    # composition (System.tla): volumes received chunk by chunk from the real poller, concatenated and scanned
+    sysval.run(c, "C01")
     if thorough:
         def corrupt(e):
             if e["out"] == "ok" and len(e["sweeps"]) >= 2:
